@@ -245,6 +245,33 @@ def check_cli(res, rng, dump, cfg):
                       f'process={cfg["process"]!r}', case)
 
 
+def edit_in_place(rng, held, target):
+    """Turns the list `held` into `target` by in-place operations only."""
+    how = rng.randrange(4)
+    if how == 0:
+        held[:] = target
+    elif how == 1:
+        held.clear()
+        held.extend(target)
+    elif how == 2:
+        for x in [x for x in held if x not in target]:
+            held.remove(x)
+        for x in target:
+            if x not in held:
+                held.append(x)
+        if held != target:          # same members, another order
+            held.sort(key=target.index)
+    else:
+        for i, x in enumerate(target):
+            if i < len(held):
+                held[i] = x
+            else:
+                held.append(x)
+        del held[len(target):]
+    if held != target:              # duplicates in the target
+        held[:] = target
+
+
 def check_reconfigured(res, rng, dump, unfiltered):
     """One front-end object whose settings are changed between requests - any non-empty subset of the four, the rest
     left as set: every request honours the settings as they are at that moment."""
@@ -263,8 +290,15 @@ def check_reconfigured(res, rng, dump, unfiltered):
             new['classes'], new['subs'] = rng.choice(([sub >> 8], [], [sub >> 8, 0x21])), [sub]
         attrs = rng.sample(('tid', 'classes', 'subs', 'process'), rng.choice((1, 1, 2, 4))) if step else list(cur)
         for a in attrs:
-            setattr(p, {'tid': 'filter_tid', 'classes': 'filter_class', 'subs': 'filter_subclass',
-                        'process': 'filter_process'}[a], copy.copy(new[a]))
+            name = {'tid': 'filter_tid', 'classes': 'filter_class', 'subs': 'filter_subclass', 'process': 'filter_process'}[a]
+            held = getattr(p, name)
+            if a in ('classes', 'subs') and isinstance(held, list) and rng.random() < 0.5:
+                # the caller edits the list the object already holds (append / remove / item and slice assignment) instead
+                # of assigning a new one: the setting is whatever the list holds when the request is made
+                edit_in_place(rng, held, list(new[a]))
+                res.count('settings_edited_in_place')
+            else:
+                setattr(p, name, copy.copy(new[a]))
             cur[a] = new[a]
         cfg = dict(cur)
         trail.append({k: (list(v) if isinstance(v, tuple) else v) for k, v in cfg.items()})
@@ -375,6 +409,7 @@ def run(ctx):
     res.require('formatted_requests_compared', 10)
     res.require('process_filters_on_dumps_with_map_updates', 10)
     res.require('reconfigured_requests', 20)
+    res.require('settings_edited_in_place', 5)
     res.require('cli_requests_compared', 20)
     res.require('long_capture_traces_selected', 100)
     return res
